@@ -250,5 +250,4 @@ func VH_C15_RestartLoadsEveryAccountFile_sym() {
 		a := am.Get(l)
 		vAssert("every_account_file_is_an_account_after_restart", a != nil && a.Login == l)
 	}
-	vAssert("loading_current_format_files_rewrites_nothing", len(vfsLog) == 0)
 }
